@@ -74,7 +74,11 @@ def gen_template(rng, uri, k):
                 d["key"] = "arg"
             elif r < 0.25:
                 d["key"] = "ctx"
+            elif r < 0.40 and not any(e.get("key") == "int" for e in t["defs"]):
+                d["key"] = "int"  # a non-string key: the integer n from the context
             d["args"] = gen_section_args(rng, d["key"] is None)
+            if d["key"] == "int":
+                d["args"].pop("type", None)
         if rng.random() < 0.35:
             n = {"name": d["name"] + "n", "cached": rng.random() < 0.7, "key": None, "buffered": rng.random() < 0.3,
                  "filter": False, "args": {}, "arg": False}
@@ -110,6 +114,12 @@ def generate(rng, tier, idx, force=None):
         base = {"timeout": rng.choice((None, None, 3))}
         for t in tmpls:
             t["inherit"] = rng.random() < 0.7
+    if backend == "beaker-dbm":
+        # dbm containers accept only str/bytes keys (Beaker's limitation): no integer cache_key there
+        for t in tmpls:
+            for d in t["defs"]:
+                if d.get("key") == "int":
+                    d["key"] = None
     if backend == "dogpile" or backend.startswith("sim"):
         for t in tmpls:
             for sec in all_sections(t):
@@ -135,7 +145,7 @@ def generate(rng, tier, idx, force=None):
                 ops.append(["invalidate_closure", ti, rng.choice(nested)])
         elif r < 0.74:
             dn = rng.choice(t["defs"])["name"]
-            ops.append(["invalidate_key", ti, rng.choice(("K%s_k1" % dn, "K%s_k2" % dn, "C%s_k1" % dn, "C%s_k2" % dn, "p1", "p2"))])
+            ops.append(["invalidate_key", ti, rng.choice(("K%s_k1" % dn, "K%s_k2" % dn, "C%s_k1" % dn, "C%s_k2" % dn, "p1", "p2", 1, 2, 1, 2))])
         elif r < 0.78:
             if backend != "dogpile":  # dogpile's own Mako plug-in has no set(): third-party code, not evaluated
                 ops.append(["setget", ti, rng.choice(("user1", "user2")), "v%d" % rng.randint(1, 99)])
@@ -260,6 +270,8 @@ def emit_template(t, scratch, backend):
                 a += ' cache_key="K%s_${a}"' % d["name"]
             elif d["key"] == "ctx":
                 a += ' cache_key="C%s_${k}"' % d["name"]
+            elif d["key"] == "int":
+                a += ' cache_key="${n}"'
             a += attr_args(d["args"])
         if d["buffered"]:
             a += ' buffered="True"'
@@ -528,6 +540,8 @@ class Harness:
                 key = "K%s_%s" % (d["name"], k)
             elif d["key"] == "ctx":
                 key = "C%s_%s" % (d["name"], k)
+            elif d["key"] == "int":
+                key = int(k[1:])
             return section(d, key, body, d["filter"])
 
         def page_body():
@@ -650,7 +664,7 @@ class Harness:
             simcache.FAIL["get_or_create"] = op[5]
         err = None
         try:
-            text = obj.render(x=x, k=k, pk=pk, tick=self.tick, f=lambda s: "<" + s + ">")
+            text = obj.render(x=x, k=k, pk=pk, n=int(k[1:]), tick=self.tick, f=lambda s: "<" + s + ">")
         except Boom as e:
             text = None
             err = e
@@ -733,7 +747,7 @@ class Harness:
             self.check_backend_args(ti, log0, label)
         else:
             self.adopt(ti)
-        self.state_hashes.add(stable_hash(sorted((a, b) for (a, b) in self.model.store)))
+        self.state_hashes.add(stable_hash(sorted((a, repr(b)) for (a, b) in self.model.store)))
 
     def text_of_other(self, ti, text):
         for o in self.colliding.get(ti, ()):
@@ -748,7 +762,7 @@ class Harness:
             return ["render_body", pk]
         for d in t["defs"]:
             if d["name"] == secname:
-                return ["render_" + secname, "K%s_%s" % (secname, k), "C%s_%s" % (secname, k)]
+                return ["render_" + secname, "K%s_%s" % (secname, k), "C%s_%s" % (secname, k), int(k[1:])]
             for n in d["nested"]:
                 if n["name"] == secname:
                     return [secname]
@@ -780,7 +794,7 @@ class Harness:
                     obj.cache.invalidate(pk)
                 for d in t["defs"]:
                     obj.cache.invalidate_def(d["name"])
-                    for kk in ("K%s_k1" % d["name"], "K%s_k2" % d["name"], "C%s_k1" % d["name"], "C%s_k2" % d["name"]):
+                    for kk in ("K%s_k1" % d["name"], "K%s_k2" % d["name"], "C%s_k1" % d["name"], "C%s_k2" % d["name"], 1, 2, "1", "2"):
                         obj.cache.invalidate(kk, __M_defname="render_" + d["name"])
                         obj.cache.invalidate(kk)
                     for n in d["nested"]:
@@ -822,6 +836,8 @@ class Harness:
             sec = secs.get(key)
             if sec is None and isinstance(key, str) and key.rsplit("_", 1)[0] + "_" in dyn:
                 sec = dyn[key.rsplit("_", 1)[0] + "_"]
+            if sec is None and isinstance(key, int):
+                sec = next((d for d in t["defs"] if d.get("key") == "int"), None)
             if sec is None and t["page"] and key in ("p1", "p2"):
                 sec = t["page"]
             if sec is None:
